@@ -240,6 +240,24 @@ func C05Scenarios(tier string) []*Scenario {
 			w.Do(9, i, CreateP(id, "", false, 1000, nil, "x").F())
 		}
 	}
+	// ... and ids that differ only in what SQL pattern matching or case folding ignores
+	likeSetup := func(w *world.World) {
+		for i, id := range []string{"job.1", "job_1", "Billing", "billing", "ab", "a%", "c"} {
+			w.Do(9, i, CreateP(id, "", false, 1000, nil, "x").F())
+		}
+	}
+	for _, pair := range [][2]ReqF{
+		{Callback("job.1", "c", 100, recvPoll), Callback("job_1", "c", 100, recvPoll)},
+		{Callback("Billing", "c", 100, recvPoll), Callback("billing", "c", 100, recvPoll)},
+		{Subscribe("ab", "c", 100, recvPoll), Subscribe("a%", "c", 100, recvPoll)},
+		{Subscribe("Billing", "c", 100, recvPoll), Subscribe("billing", "c", 100, recvPoll)},
+	} {
+		out = append(out, &Scenario{
+			Name: fmt.Sprintf("C05/ids-that-pattern-match/%s|%s", pair[0].Label, pair[1].Label), Cfg: world.DefaultConfig(), Clock0: 9, Setup: likeSetup,
+			Clients: [][]ReqF{{pair[0]}, {pair[1]}}, ClockMenu: []int64{10},
+			Epilogue: promiseEpilogue("c"), Monitors: mon, Bound: -1,
+		})
+	}
 	for _, pair := range [][2]ReqF{
 		{Callback("a:b", "c", 100, recvPoll), Callback("a", "b:c", 100, recvPoll)},
 		{Subscribe("c", "a:b", 100, recvPoll), Subscribe("b:c", "a", 100, recvPoll)},
